@@ -43,6 +43,13 @@ def base_workspaces():
         _, spec = S.build(sk, combo)
         spec["parameters"] = [{"name": "mu", "bounds": [[0.0, 8.0]], "inits": [1.0], "fixed": False}]
         out.append(S.workspace(spec, measurements=2))
+    w = copy.deepcopy(out[0])
+    w["measurements"][1]["name"] = "mesure_\u00e9\u03bc"   # non-ASCII text is legal JSON: the digest is over the UTF-8 encoding
+    for c in w["channels"]:
+        for s_ in c["samples"]:
+            if s_["name"] == "bkg":
+                s_["name"] = "bkg_\u03c4\u03c4"
+    out.append(w)
     return out
 
 
@@ -58,10 +65,11 @@ def plan(tier, seed):
         src = pairs if tier == "thorough" else small
         for combo in itertools.product(range(len(src)), repeat=3):
             cases.append({"kind": "doc", "labels": labels, "patches": list(combo), "alphabet": "full" if tier == "thorough" else "small"})
-    for wi in range(2):
+    for wi in range(3):
         for algs in (["sha256"], ["md5"], ["sha256", "md5"]):
             cases.append({"kind": "verify", "ws": wi, "algs": algs})
-        cases.append({"kind": "apply", "ws": wi, "maxlen": 2})
+        if wi < 2:
+            cases.append({"kind": "apply", "ws": wi, "maxlen": 2})
     return dict(
         cases=cases, chunk=256,
         rule="doc case = one ordered patch list (length <=3, repetition allowed) over 7 names x 6 value tuples, with 1 or 2 labels: acceptance + every lookup key; "
@@ -179,8 +187,14 @@ def corrupt(ws, path, kind):
             if nv != v:
                 out.append(w2)
     elif isinstance(v, str):
-        tgt[path[-1]] = v + "x"
-        out.append(w)
+        for nv in (v + "x", v + "\u00e9", "\u03bc" + v[1:], v[:-1] + "\u03c4"):
+            w2 = copy.deepcopy(w)
+            t2 = w2
+            for p in path[:-1]:
+                t2 = t2[p]
+            t2[path[-1]] = nv
+            if nv != v:
+                out.append(w2)
     elif v is None:
         tgt[path[-1]] = 0
         out.append(w)
@@ -405,15 +419,32 @@ def ev_apply(case):
                         failed += 1
                 else:
                     failed += 1
-    # verification gate: apply on a workspace that does not verify must raise
-    ncmp += 1
+    # histories on ONE PatchSet object: every sequence of length <=3 over {apply good, apply corrupted, verify good, verify corrupted};
+    # the outcome of each operation must not depend on the operations before it (verification is never cached)
     w2 = copy.deepcopy(ws)
     w2["observations"][0]["data"][0] += 1
-    try:
-        ps.apply(w2, "p")
-        issues.append(C.issue("C17:apply:unverified", "apply accepted a background workspace that does not verify", **ctx0))
-    except pyhf.exceptions.PatchSetVerificationError:
-        pass
-    except Exception as e:
-        pass
+    good_patch = [menu[0]]
+    dd = {"metadata": meta(["x"], {"sha256": ref_digest(ws, "sha256")}), "version": "1.0.0", "patches": [{"metadata": {"name": "p", "values": [1]}, "patch": good_patch}]}
+    expected_ok = {"apply_good": True, "apply_bad": False, "verify_good": True, "verify_bad": False}
+    for L in (1, 2, 3):
+        for seq in itertools.product(list(expected_ok), repeat=L):
+            psx = pyhf.PatchSet(copy.deepcopy(dd))
+            for step, op in enumerate(seq):
+                target = copy.deepcopy(ws if op.endswith("good") else w2)
+                ncmp += 1
+                try:
+                    if op.startswith("apply"):
+                        psx.apply(target, "p")
+                    else:
+                        psx.verify(target)
+                    ok = True
+                except pyhf.exceptions.PatchSetVerificationError:
+                    ok = False
+                except Exception as e:
+                    issues.append(C.issue(f"C17:history:{type(e).__name__}", f"{op} raised {type(e).__name__} after {list(seq[:step])}", **ctx0))
+                    break
+                if ok != expected_ok[op]:
+                    issues.append(C.issue("C17:history:" + ("unverified_accepted" if ok else "verified_refused"),
+                                          f"{op} {'succeeds' if ok else 'is refused'} after {list(seq[:step])} on the same PatchSet object", **dict(ctx0, sequence=list(seq))))
+                    break
     return dict(issues=issues, nontrivial=applied > 0 and failed > 0, outcome=digest([case["ws"], applied, failed]), comparisons=ncmp)
